@@ -291,7 +291,12 @@ pub fn check_fault(m: &Model, c: &SeqCase, f: &Fault) -> CheckResult {
 pub fn replay_c05(_check: &str, i: &Value) -> Option<CheckResult> {
     Some(check_seq(&Model::new(), &serde_json::from_value(i.clone()).ok()?))
 }
-pub fn replay_c06(_check: &str, i: &Value) -> Option<CheckResult> {
+pub fn replay_c06(check: &str, i: &Value) -> Option<CheckResult> {
+    if check == "upload-fault" {
+        let _q = crate::props::c11::Quiet::new();
+        let c: crate::props::c11::UploadCase = serde_json::from_value(i.get("case")?.clone()).ok()?;
+        return Some(crate::props::c11::check_upload_fault(&crate::table(), &c, i.get("pos")?.as_u64()? as usize, i.get("kind")?.as_str()?, &unhex(i.get("fault")?.as_str()?)));
+    }
     Some(check_fault(&Model::new(), &serde_json::from_value(i.get("case")?.clone()).ok()?, &serde_json::from_value(i.get("fault")?.clone()).ok()?))
 }
 
@@ -314,6 +319,16 @@ impl Pools {
         for name in names {
             let l = &m.t[name];
             let mut v: Vec<Vec<u8>> = ctx.sample_values(ctx.seed_for("pool", fnv_str(name)), n, &strategy_for(&m.t, name, cfg)).into_iter().filter(|v| is_canonical(&m.t, l, v)).map(|v| encode(&m.t, l, &v).unwrap()).collect();
+            // packets with an extended-length header (body >= 255 bytes), where the layout has a field that can grow
+            for (k, target) in [255usize, 256, 300, 700, 4000].iter().enumerate() {
+                if let Some(base) = ctx.sample_values(ctx.seed_for("pool-long", fnv_str(name) ^ k as u64), 1, &strategy_for(&m.t, name, cfg)).into_iter().next() {
+                    if let Some(p) = pump(&m.t, l, &base, *target) {
+                        if is_canonical(&m.t, l, &p) && l.ctrl.is_some() {
+                            v.push(encode(&m.t, l, &p).unwrap());
+                        }
+                    }
+                }
+            }
             // representative first: the smallest non-degenerate encoding
             v.sort_by_key(|b| (b.len() < 4, b.len()));
             v.dedup();
@@ -414,6 +429,12 @@ pub fn run_c05(tier: Tier) -> i32 {
             let c = SeqCase { seq: s.name.to_string(), cmd: hex(pools.pick(s.cmd, *csel)), replies, trailing: hex(trailing), chunks: chunks.clone() };
             st.case(c.replies.len() >= 2 && !trailing.is_empty(), fnv(&serde_json::to_vec(&c).unwrap()));
             st.class(if c.replies.len() > 6 { "random:len>6" } else { "random:len<=6" });
+            if c.replies.iter().any(|r| r.len() >= 6 && &r[4..6] == "ff") {
+                st.class("random:extended-length-reply");
+                if chunks.iter().any(|k| *k == 1) {
+                    st.class("random:extended-length-reply-bytewise");
+                }
+            }
             check_seq(&m, &c)
         });
     });
@@ -486,6 +507,15 @@ fn faults_at(m: &Model, s: &SeqEntry, pools: &Pools, pos: usize, salt: usize) ->
         out.push(Fault { pos, kind: "truncated".into(), bytes: hex(&[some[0], some[1], 0x05, 0x01]) });
     }
     out.push(Fault { pos, kind: "truncated".into(), bytes: hex(&[some[0], some[1], 0xff, 0x10]) });
+    // an extended-length packet (5-byte header, body >= 255) cut inside its body
+    if pos > 0 {
+        let long = m.owned(s).iter().filter_map(|(_, _, _, ty)| pools.by_type[*ty].iter().find(|p| p.len() > 260)).nth(salt % 2).or(m.owned(s).iter().filter_map(|(_, _, _, ty)| pools.by_type[*ty].iter().find(|p| p.len() > 260)).next());
+        if let Some(p) = long {
+            for cut in [5usize, 6, p.len() / 2, p.len() - 1] {
+                out.push(Fault { pos, kind: "truncated".into(), bytes: hex(&p[..cut]) });
+            }
+        }
+    }
     out.push(Fault { pos, kind: "eof".into(), bytes: String::new() });
     out
 }
@@ -567,6 +597,41 @@ pub fn run_c06(tier: Tier) -> i32 {
         st.class_n(if pos == 0 { "control-field-sweep@ack" } else { "control-field-sweep@first-reply" }, n);
     });
     stats.merge(s);
+    // the firmware upload stream: good data requests, then one fault
+    {
+        use crate::props::c11::{check_upload_fault, FileSpec, Quiet, Req, UploadCase, RECOGNISED};
+        let _q = Quiet::new();
+        let t = crate::table();
+        let s = ctx.shards("upload", 8, |i, _seed, st| {
+            let files = vec![FileSpec { which: (i as usize * 3) % 21, size: 700 + i as usize * 91, seed: i as u8 }, FileSpec { which: (i as usize * 3 + 7) % 21, size: 3000, seed: 9 }];
+            let ids: Vec<u8> = files.iter().map(|f| RECOGNISED[f.which].1).collect();
+            for nreq in 0..4usize {
+                let requests: Vec<Req> = (0..nreq).map(|k| Req { id: ids[k % 2], offset: (k * 256) as u32, malformed: String::new() }).collect();
+                let c = UploadCase { files: files.clone(), block: 256, password: 123456, requests, ending: "completion".into(), chunks: CHUNKINGS[(i as usize + nreq) % 4].to_vec() };
+                let positions: Vec<usize> = if nreq == 0 { vec![0, 1] } else { vec![nreq + 1] };
+                for pos in positions {
+                    let mut faults: Vec<(&str, Vec<u8>)> = vec![("nack", vec![0x84, 0x9a, 0x00]), ("nack", vec![0x84, 0x00, 0x00]), ("eof", vec![]), ("truncated", vec![0x04]), ("truncated", vec![0x04, 0x0c, 0x09, 0x06]), ("truncated", vec![0x06, 0x0f, 0xff, 0x10])];
+                    for fb in [[0x04u8, 0xff, 0x00], [0x06, 0xd1, 0x00], [0x04, 0x0d, 0x00], [0x05, 0x0c, 0x00], [0x80, 0x01, 0x00], [0x06, 0x1f, 0x00], [0x04, 0x0f, 0x00]] {
+                        faults.push(("foreign", fb.to_vec()));
+                    }
+                    if pos == 0 {
+                        faults.push(("foreign", vec![0x06, 0x0f, 0x00]));
+                        faults.push(("foreign", vec![0x04, 0x0c, 0x00]));
+                    } else {
+                        // data requests whose body cannot be decoded
+                        faults.push(("malformed", vec![0x04, 0x0c, 0x02, 0x06, 0x82]));
+                        faults.push(("malformed", vec![0x04, 0x0c, 0x05, 0x06, 0x03, 0x2d, 0x05, 0x1d]));
+                    }
+                    for (kind, fb) in faults {
+                        st.case(pos >= 2, fnv(&serde_json::to_vec(&(&c, pos, kind, &fb)).unwrap()));
+                        st.class(&format!("upload:{kind}@{}", if pos == 0 { "ack" } else { "request" }));
+                        ctx.record(check_upload_fault(&t, &c, pos, kind, &fb), st);
+                    }
+                }
+            }
+        });
+        stats.merge(s);
+    }
     // random prefixes / bodies / fault bytes
     let nrand: u32 = tier.pick(150_000, 1_000_000);
     let s = ctx.shards("random", 32, |_i, seed, st| {
@@ -602,8 +667,8 @@ pub fn run_c06(tier: Tier) -> i32 {
     stats.exhaustive_parts = vec![format!("17 sequences x every valid reply-script prefix of length <= {depth} x every fault (4 NACK codes, foreign control fields incl. near misses of the expected ones, malformed bodies per reply kind, 5 truncations, EOF) at the position behind the prefix (and at the ack position)"), "17 sequences x all 65 536 control fields outside the expected set, at the acknowledgement position and instead of the first reply".into()];
     ctx.finish(
         stats,
-        "17 Sequence impls x valid script prefixes x one fault {NACK 84 xx, packet outside the reply set, undecodable body inside the reply set, truncated packet + end of stream, end of stream} at the acknowledgement position or instead of reply j; exhaustive over prefixes up to the stated depth, then proptest prefixes up to 8 replies with random bodies. Oracle: Ok items for the replies before the fault, exactly one Err, then None twice without I/O, and no byte written once the faulty bytes were released. non-trivial = fault behind at least one acknowledged reply (position >= 2); distinct by (sequence, prefix bytes, fault)",
-        &["'malformed' bodies are used only when both the reference decoder and the packet's own decoder reject them", "the upload stream's fault behaviour is part of C11"],
+        "17 Sequence impls (and the firmware upload stream with 0..3 good data requests) x valid script prefixes x one fault {NACK 84 xx, packet outside the reply set, undecodable body inside the reply set, truncated packet + end of stream, end of stream} at the acknowledgement position or instead of reply j; exhaustive over prefixes up to the stated depth, then proptest prefixes up to 8 replies with random bodies. Oracle: Ok items for the replies before the fault, exactly one Err, then None twice without I/O, and no byte written once the faulty bytes were released. non-trivial = fault behind at least one acknowledged reply (position >= 2); distinct by (sequence, prefix bytes, fault)",
+        &["'malformed' bodies are used only when both the reference decoder and the packet's own decoder reject them", "for the upload stream the faults are placed behind 0..3 answered data requests (props/c11.rs check_upload_fault)"],
         false,
     )
 }
